@@ -114,6 +114,7 @@ func (ft *FuncTr) rangeFuncCall(st *State, at *Term, in ssa.Instruction, c *ssa.
 	}
 	for _, n := range ms.names() {
 		ft.h.noteHavoc(head.heap[n], ft.h.nextID(head))
+		ft.h.noteMapArr(head, n)
 	}
 	V := ft.d.Fresh(fmt.Sprintf("visited_rf%d", ord), SArray(ks, SBool))
 	head.ghost[gname] = V
